@@ -8,6 +8,7 @@ package main
 import (
 	"bytes"
 	"fmt"
+	"math"
 	"path/filepath"
 
 	"github.com/elastos/Elastos.ELA/common"
@@ -109,11 +110,18 @@ func runAPConfirm(scr string) []apRes {
 			vec{tag + ": no inputs, output 5000, bare", h, []int64{5000}, none, true, false, false},
 			vec{tag + ": no inputs, output 5000, with attribute", h, []int64{5000}, none, false, false, false},
 			vec{tag + ": no inputs, outputs 1 and 2^62", h, []int64{1, 1 << 62}, none, true, false, false},
+			vec{tag + ": no inputs, four outputs of 2^62 (sum wraps to 0)", h, []int64{1 << 62, 1 << 62, 1 << 62, 1 << 62}, none, true, false, false},
+			vec{tag + ": no inputs, four outputs of 2^62, with attribute", h, []int64{1 << 62, 1 << 62, 1 << 62, 1 << 62}, none, false, false, false},
+			vec{tag + ": no inputs, 2^63-1, 2^63-1, 2 (sum wraps to 0)", h, []int64{math.MaxInt64, math.MaxInt64, 2}, none, true, false, false},
+			vec{tag + ": no inputs, 2^63-1, 2^63-1, 1, 1 (sum wraps to 0)", h, []int64{math.MaxInt64, math.MaxInt64, 1, 1}, none, true, false, false},
 			vec{tag + ": 1000 -> 1000", h, []int64{1000}, one, false, h > nft, false},
 			vec{tag + ": 1000 -> 1000000", h, []int64{1000000}, one, false, false, false},
 			vec{tag + ": 1000 -> 900", h, []int64{900}, one, false, false, false},
 		)
 	}
+	vectors = append(vectors,
+		vec{"late height: no inputs, four outputs of 2^62 (sum wraps to 0)", late, []int64{1 << 62, 1 << 62, 1 << 62, 1 << 62}, none, true, false, false},
+		vec{"late height: no inputs, 2^63-1, 2^63-1, 2 (sum wraps to 0)", late, []int64{math.MaxInt64, math.MaxInt64, 2}, none, false, false, false})
 	out := f.runVectors("producer", nodeKey, pstate, vectors, 0)
 
 	// ---- the council-member path of SpecialContextCheck: in the election period an inactive
@@ -131,6 +139,7 @@ func runAPConfirm(scr string) []apRes {
 		crVectors = append(crVectors,
 			vec{tag + ": zero cost shape (nothing in, nothing out)", h, nil, none, true, h <= nft, false},
 			vec{tag + ": no inputs, output 5000, bare", h, []int64{5000}, none, true, false, false},
+			vec{tag + ": no inputs, four outputs of 2^62 (sum wraps to 0)", h, []int64{1 << 62, 1 << 62, 1 << 62, 1 << 62}, none, true, false, false},
 			vec{tag + ": 1000 -> 1000", h, []int64{1000}, one, false, false, false},
 			vec{tag + ": 1000 -> 1000000", h, []int64{1000000}, one, false, false, false},
 			vec{tag + ": somebody else's 1000 -> 900 (no valid signature)", h, []int64{900}, one, false, false, true},
